@@ -3,7 +3,13 @@ Two bodies with the same canonical form differ only by refactorings that cannot 
   * comments, parentheses, `unsafe { }` wrappers (anywhere), single-expression blocks;
   * consistent renaming of parameters, `let` bindings, closure parameters, `for` variables and match-arm bindings;
   * a `let x = e;` whose only use is the first thing the NEXT statement evaluates (naming an intermediate value);
-  * `if !c { a } else { b }`  versus  `if c { b } else { a }`;
+  * `if !c { a } else { b }`  versus  `if c { b } else { a }`;  `if c {} else { b }` versus `if !c { b }`;  `!(a == 3)`
+    versus `a != 3` (integers only);  at the top level of the body, `if c { return X; } rest` versus
+    `if c { X } else { rest }`;
+  * `match E { Ok(x) => x, Err(y) => B }` versus `E.unwrap_or_else(|y| B)` and `match E { Ok(x) => Ok(F(x)), Err(y) =>
+    Err(y) }` versus `E.map(F)`;
+  * `let _ = f(..);` versus `drop(f(..));`;  `x as *mut T` / `x as *const T` / `x.cast::<T>()`;
+  * a block in tail position of a block versus its contents in place;
   * `p.add(n)` versus `p.offset(n)` (raw pointers: the same function for a non-negative literal);
   * `Self::f(x, ..)` / `<this impl's type>::f(x, ..)` versus `x.f(..)` for the first argument `self` / `this` /
     a parameter (inherent methods are found before any auto-deref);
@@ -13,6 +19,23 @@ Two bodies with the same canonical form differ only by refactorings that cannot 
 Anything else is a difference.  The canonical form is a nested tuple; it is only ever compared for equality."""
 from rustparse import *
 
+def _item_digest(it):
+    """an item nested in a body (a guard struct, its Drop impl ..): its header and, for functions, the canonical form of
+    the body; never ignored"""
+    try:
+        head = toks_text(it.header) if getattr(it, 'header', None) is not None else ''
+        if getattr(it, 'children', None):
+            return (it.kind, head, tuple(_item_digest(c) for c in it.children))
+        if it.kind == 'fn' and it.body is not None:
+            try:
+                ps = [pn for pn, ty in parse_fn_sig(it.header)['params'] if pn != 'self']
+                return ('fn', head, canon(it.body, ps))
+            except Exception:
+                return ('fn', head, toks_text(it.body))
+        return (it.kind, head, toks_text(it.body) if it.body is not None else '')
+    except Exception:
+        return ('?', repr(it))
+
 def _strip_all(e):
     """strip parentheses / unsafe / single-tail blocks at every level"""
     if isinstance(e, tuple):
@@ -21,9 +44,16 @@ def _strip_all(e):
         if e and e[0] == 'block':
             stmts = []
             for st in e[1]:
-                if st[0] == 'let': stmts.append(('let', st[1], st[2], _strip_all(st[3]) if st[3] is not None else None))
+                if st[0] == 'let':
+                    init = _strip_all(st[3]) if st[3] is not None else None
+                    m = re.match(r'^\(\s*((?:mut\s+)?[a-z_][A-Za-z0-9_]*(?:\s*,\s*(?:mut\s+)?[a-z_][A-Za-z0-9_]*)+)\s*,?\s*\)$', st[1].strip()) if isinstance(st[1], str) else None
+                    if m and st[2] is None and isinstance(init, tuple) and init and init[0] == 'tuple' and len(init[1]) == len(m.group(1).split(',')):
+                        # `let (a, b) = (x, y);` evaluates x then y and binds them: two lets
+                        for nm, x in zip(m.group(1).split(','), init[1]): stmts.append(('let', nm.strip(), None, x))
+                    else:
+                        stmts.append(('let', st[1], st[2], init))
                 elif st[0] == 'expr': stmts.append(('expr', _strip_all(st[1])))
-                else: stmts.append(st if st[0] != 'item' else ('item', '?'))
+                else: stmts.append(st if st[0] != 'item' else ('item', _item_digest(st[1])))
             tail = _strip_all(e[2]) if e[2] is not None else None
             # a block statement `unsafe { a; b; }` in statement position: splice its statements (no scoping effect on
             # values that are dropped at once; `let` inside keeps its block to stay sound)
@@ -34,7 +64,14 @@ def _strip_all(e):
                     out += list(x[1])
                 else:
                     out.append(st)
+            # a block in TAIL position of a block: its statements and tail continue the enclosing block (its locals
+            # are declared after, hence dropped before, the enclosing block's locals either way, and the temporaries of
+            # a tail expression outlive both)
+            if tail is not None and isinstance(tail, tuple) and tail and tail[0] == 'block':
+                out = out + list(tail[1]); tail = tail[2]
             if not out and tail is not None: return tail
+            if len(out) == 1 and tail is None and out[0][0] == 'expr' and isinstance(out[0][1], tuple) and out[0][1][:2] == ('call', ('path', ['drop'], [[]])):
+                return out[0][1]          # `{ drop(x); }` and `drop(x)` are both `()` after dropping x
             return ('block', out, tail)
         return tuple(_strip_all(x) for x in e)
     if isinstance(e, list): return [_strip_all(x) for x in e]
@@ -54,7 +91,7 @@ def _reach(e, name):
             if r != 'absent': return r
         return 'blocked' if then_impure else 'absent'
     if k == 'paren': return _reach(e[1], name)
-    if k == 'cast': return _reach(e[1], name)
+    if k in ('cast', 'ptrcast'): return _reach(e[1], name)
     if k == 'ref': return _reach(e[2], name)
     if k == 'field': return _reach(e[1], name)
     if k == 'unary': return seq([e[2]], e[1] == '*')
@@ -67,6 +104,13 @@ def _reach(e, name):
     if k == 'match': return seq([e[1]], True)
     if k == 'return': return seq([e[1]] if e[1] is not None else [], True)
     if k == 'struct': return seq([f[1] for f in e[3] if isinstance(f, (tuple, list)) and len(f) >= 2], False)
+    if k == 'block':
+        first = e[1][0] if e[1] else (('expr', e[2]) if e[2] is not None else None)
+        if first is None: return 'absent'
+        x = first[3] if first[0] == 'let' else (first[1] if first[0] == 'expr' else None)
+        if x is None: return 'blocked'
+        r = _reach(x, name)
+        return r if r != 'absent' else 'blocked'
     return 'blocked'
 
 def _first_leaf(e):
@@ -123,20 +167,103 @@ def _inline_lets_stmt(s):
     if s[0] == 'expr': return ('expr', _inline_lets(s[1]))
     return s
 
+def _is_lit_int(e):
+    e = strip(e) if isinstance(e, tuple) else e
+    return isinstance(e, tuple) and e and e[0] == 'lit' and re.match(r'^[0-9][0-9_]*(usize|isize|u\d+|i\d+)?$', e[1] or '') is not None
+
+def _int_cmp(c):
+    """`a == 3` / `a != 3`: a comparison of integers (one side is an integer literal), where `!=` is the negation of `==`"""
+    return isinstance(c, tuple) and c and c[0] == 'binary' and c[1] in ('==', '!=') and (_is_lit_int(c[2]) or _is_lit_int(c[3]))
+
+def _neg(c):
+    if isinstance(c, tuple) and c and c[0] == 'unary' and c[1] == '!': return c[2]
+    if _int_cmp(c): return ('binary', '!=' if c[1] == '==' else '==', c[2], c[3])
+    return ('unary', '!', c)
+
+def _empty_block(b):
+    return isinstance(b, tuple) and b and b[0] == 'block' and not b[1] and b[2] is None
+
+def _norm_if(c, a, b):
+    """`if !c {a} else {b}` = `if c {b} else {a}`;  `if c {} else {b}` = `if !c {b}`"""
+    if b is not None and _empty_block(a): return _norm_if(_neg(c), b, None)
+    if b is not None and _empty_block(b): b = None
+    if b is not None and isinstance(c, tuple) and c and c[0] == 'unary' and c[1] == '!': return _norm_if(c[2], b, a)
+    return ('if', c, a, b)
+
+def _result_match(e):
+    """`match E { Ok(x) => x, Err(y) => B }` is `E.unwrap_or_else(|y| B)` and `match E { Ok(x) => Ok(F(x)), Err(y) =>
+    Err(y) }` is `E.map(F)`: the definitions of those two methods of Result (the patterns fix the type)"""
+    arms = e[2]
+    if len(arms) != 2 or any(len(a) < 3 or a[1] is not None for a in arms): return None
+    pats = [a[0].strip() if isinstance(a[0], str) else '' for a in arms]
+    mo = [re.match(r'^Ok\s*\(\s*([a-z_][A-Za-z0-9_]*)\s*\)$', p) for p in pats]
+    me = [re.match(r'^Err\s*\(\s*([a-z_][A-Za-z0-9_]*)\s*\)$', p) for p in pats]
+    if mo[0] and me[1]: ok, err, x, y = arms[0], arms[1], mo[0].group(1), me[1].group(1)
+    elif mo[1] and me[0]: ok, err, x, y = arms[1], arms[0], mo[1].group(1), me[0].group(1)
+    else: return None
+    okb = strip(ok[2]); errb = strip(err[2])
+    def is_var(t, n): return isinstance(t, tuple) and t and t[0] == 'path' and t[1] == [n]
+    if is_var(okb, x):
+        return ('mcall', e[1], 'unwrap_or_else', [], [('closure', [y], err[2])])
+    if isinstance(okb, tuple) and okb[0] == 'call' and okb[1][0] == 'path' and okb[1][1] == ['Ok'] and len(okb[2]) == 1 \
+            and isinstance(errb, tuple) and errb[0] == 'call' and errb[1][0] == 'path' and errb[1][1] == ['Err'] and len(errb[2]) == 1 and is_var(strip(errb[2][0]), y):
+        inner = strip(okb[2][0])
+        if isinstance(inner, tuple) and inner[0] == 'call' and inner[1][0] == 'path' and len(inner[2]) == 1 and is_var(strip(inner[2][0]), x):
+            return ('mcall', e[1], 'map', [], [inner[1]])
+    return None
+
+def _early_returns(e):
+    """at the top level of a function body: `if c { ..; return X; } REST` is `if c { ..; X } else { REST }`"""
+    if not (isinstance(e, tuple) and e and e[0] == 'block'): return e
+    stmts = list(e[1]); tail = e[2]
+    i = len(stmts) - 1
+    while i >= 0:
+        st = stmts[i]
+        if st[0] == 'expr' and isinstance(st[1], tuple) and st[1] and st[1][0] == 'if' and st[1][3] is None:
+            a = st[1][2]
+            if isinstance(a, tuple) and a and a[0] == 'return': a = ('block', [], a)
+            if isinstance(a, tuple) and a and a[0] == 'block':
+                pre = list(a[1]); last = a[2]
+                if last is None and pre and pre[-1][0] == 'expr': last = pre[-1][1]; pre = pre[:-1]
+                else: last = last
+                if isinstance(last, tuple) and last and last[0] == 'return':
+                    x = last[1] if len(last) > 1 else None
+                    rest = ('block', stmts[i + 1:], tail)
+                    tail = _norm_if(st[1][1], ('block', pre, x), rest)
+                    stmts = stmts[:i]
+        i -= 1
+    return ('block', stmts, tail)
+
+def _is_value_call(e):
+    return isinstance(e, tuple) and e and e[0] in ('call', 'mcall')
+
 def _rewrite(e, self_heads):
-    """if-negation, add/offset, path-call versus method-call, wildcard arm"""
+    """if-negation, add/offset, path-call versus method-call, wildcard arm, `let _ = f(..)` versus `drop(f(..))`,
+    raw-pointer casts"""
     if isinstance(e, list): return [_rewrite(x, self_heads) for x in e]
     if not isinstance(e, tuple) or not e: return e
     e = tuple(_rewrite(x, self_heads) for x in e)
     k = e[0]
-    if k == 'if' and e[3] is not None and isinstance(e[1], tuple) and e[1] and e[1][0] == 'unary' and e[1][1] == '!':
-        return ('if', e[1][2], e[3], e[2])
+    # `let _ = <call>;` drops the temporary at the end of the statement, which is what `drop(<call>);` does
+    if k == 'let' and isinstance(e[1], str) and e[1].strip() == '_' and e[2] is None and _is_value_call(e[3]):
+        return ('expr', ('call', ('path', ['drop'], [[]]), [e[3]]))
+    # `x as *mut T` / `x as *const T` / `x.cast::<T>()`: the same address with the pointee type T (mutability of a raw
+    # pointer type is not behaviour)
+    if k == 'cast' and isinstance(e[2], tuple) and e[2] and e[2][0] == 'tptr':
+        return ('ptrcast', e[1], e[2][2])
+    if k == 'mcall' and e[2] == 'cast' and len(e[3]) == 1 and not e[4]:
+        return ('ptrcast', e[1], e[3][0])
+    if k == 'if': return _norm_if(e[1], e[2], e[3])
+    if k == 'unary' and e[1] == '!' and isinstance(e[2], tuple) and e[2] and e[2][0] == 'unary' and e[2][1] == '!': return e[2][2]
+    if k == 'unary' and e[1] == '!' and _int_cmp(e[2]): return _neg(e[2])
     if k == 'mcall' and e[2] == 'add' and len(e[4]) == 1 and isinstance(e[4][0], tuple) and e[4][0][0] == 'lit':
         return ('mcall', e[1], 'offset', e[3], e[4])
     if k == 'call' and e[1][0] == 'path' and len(e[1][1]) == 2 and e[1][1][0] in self_heads and e[2] \
             and isinstance(e[2][0], tuple) and e[2][0][0] == 'path' and len(e[2][0][1]) == 1 and e[2][0][1][0][0].islower():
         return ('mcall', e[2][0], e[1][1][1], [], list(e[2][1:]))
     if k == 'match':
+        r = _result_match(e)
+        if r is not None: return r
         arms = list(e[2])
         if arms:
             last = arms[-1]
@@ -253,6 +380,41 @@ def _place_kind(a):
     if a[0] == 'ref': return 'place' if _place_kind(a[2]) else None
     return None
 
+def _count_raw(e, name):
+    if isinstance(e, tuple):
+        if e and e[0] == 'path' and e[1] == [name]: return 1
+        if e and e[0] == 'macro': return 5 if re.search(r'\b%s\b' % re.escape(name), e[3] if len(e) > 3 and isinstance(e[3], str) else '') else 0
+        return sum(_count_raw(x, name) for x in e)
+    if isinstance(e, list): return sum(_count_raw(x, name) for x in e)
+    return 0
+
+def _called_once(e, name):
+    """`name` occurs as the callee of a call whose arguments are places"""
+    if isinstance(e, tuple):
+        if e and e[0] == 'call' and isinstance(e[1], tuple) and e[1] and e[1][0] == 'path' and e[1][1] == [name]:
+            return all(_place_kind(a) for a in e[2])
+        return any(_called_once(x, name) for x in e)
+    if isinstance(e, list): return any(_called_once(x, name) for x in e)
+    return False
+
+def _beta(e):
+    """`(|a, b| body)(x, y)` with place arguments: body with a, b replaced"""
+    if isinstance(e, list): return [_beta(x) for x in e]
+    if not isinstance(e, tuple) or not e: return e
+    e = tuple(_beta(x) for x in e)
+    if e[0] == 'call':
+        f = strip(e[1])
+        if isinstance(f, tuple) and f and f[0] == 'closure' and len(f[1]) == len(e[2]) and all(_place_kind(a) for a in e[2]):
+            names = [p.strip() for p in f[1]]
+            argids = set()
+            for a in e[2]: _idents(a, argids)
+            if len(set(names)) == len(names) and not (_bound_names(f[2]) & argids):
+                tmp = f[2]
+                for i, n in enumerate(names): tmp = _subst(tmp, n, ('path', ['\x02%d' % i], [[]]))
+                for i, a in enumerate(e[2]): tmp = _subst(tmp, '\x02%d' % i, ('paren', a))
+                return tmp
+    return e
+
 def inline_helpers(e, helpers, caller_types=None, depth=0):
     """helpers: {path tuple: dict(params=[(name, type text)], body=AST)} - private functions of the same file that the
     body compared against does not call.  A call `h(a, b)` whose arguments are variables, field chains, references of
@@ -265,35 +427,75 @@ def inline_helpers(e, helpers, caller_types=None, depth=0):
     if isinstance(e, list): return [inline_helpers(x, helpers, caller_types, depth) for x in e]
     if not isinstance(e, tuple) or not e: return e
     e = tuple(inline_helpers(x, helpers, caller_types, depth) for x in e)
+    if e[0] == 'mcall' and depth < 3 and isinstance(strip(e[1]), tuple) and strip(e[1])[0] == 'path' and strip(e[1])[1] == ['self']:
+        # `self.h(a, b)` for an inherent method h of the same type taking `self` by reference or by value: the body
+        # with the parameters replaced; `self` stays `self` (auto-referencing a receiver does not evaluate anything)
+        h = helpers.get(('.self', e[2]))
+        if h is not None and len(h['params']) == len(e[4]) and not e[3]:
+            e = ('call', ('path', ['\x01method', e[2]], [[], []]), list(e[4]))
+            helpers = dict(helpers); helpers[('\x01method', e[1][1][1])] = h
     if e[0] == 'call' and isinstance(e[1], tuple) and e[1] and e[1][0] == 'path' and depth < 3:
         h = helpers.get(tuple(e[1][1]))
         if h is not None and len(h['params']) == len(e[2]):
             body = h['body']
             kinds = [_place_kind(a) for a in e[2]]
-            if all(kinds) and not _has_tag(body, ('return', 'try', 'break', 'continue', 'macro', 'loop', 'while', 'await')):
+            pnames = [pn for pn, _ in h['params']]
+            # an argument that is not a place is bound by a `let` in front of the body, in argument order: that IS
+            # call-by-value; single-use bindings then disappear through the ordinary `let` rule
+            # a closure argument whose parameter is called exactly once in the body (and used nowhere else) is put in
+            # place of that call (beta reduction: the closure is evaluated at the call either way)
+            closure_args = [i for i, a in enumerate(e[2]) if isinstance(strip(a), tuple) and strip(a)[0] == 'closure']
+            for i in closure_args:
+                cl = strip(e[2][i])
+                if _count_raw(body, pnames[i]) != 1 or not _called_once(body, pnames[i]) or _has_tag(cl[2], ('return', 'try', 'break', 'continue')): return e
+                if not all(isinstance(pp, str) and re.match(r'^[a-z_][A-Za-z0-9_]*$', pp.strip()) for pp in cl[1]): return e
+                kinds[i] = 'closure'
+            bound_args = [i for i, k in enumerate(kinds) if not k]
+            if any(_has_tag(e[2][i], ('closure', 'return', 'try', 'break', 'continue')) for i in bound_args): return e
+            if not _has_tag(body, ('return', 'try', 'break', 'continue', 'macro', 'loop', 'while', 'await')):
                 if 'place' in kinds and _has_tag(body, ('assign',)): return e
                 bound = _bound_names(body); argids = set()
-                for a in e[2]: _idents(a, argids)
+                for i, a in enumerate(e[2]):
+                    if i in closure_args:
+                        cl = strip(a); inner = set(); _idents(cl[2], inner)
+                        argids |= inner - set(pp.strip() for pp in cl[1]) - _bound_names(cl[2])
+                    else:
+                        _idents(a, argids)
                 if bound & argids: return e
-                pnames = [pn for pn, _ in h['params']]
                 if len(set(pnames)) != len(pnames) or (set(pnames) & bound): return e
+                if bound_args and (set(pnames[i] for i in bound_args) & argids): return e
                 for (pn, pty), a in zip(h['params'], e[2]):
                     a0 = strip(a)
                     if caller_types is not None and a0[0] == 'path' and a0[1][0] in caller_types and caller_types[a0[1][0]] != pty: return e
-                # simultaneous substitution
+                # simultaneous substitution of the place arguments
                 tmp = body
-                for i, pn in enumerate(pnames): tmp = _subst(tmp, pn, ('path', ['\x00%d' % i], [[]]))
-                for i, a in enumerate(e[2]): tmp = _subst(tmp, '\x00%d' % i, ('paren', a))
+                for i, pn in enumerate(pnames):
+                    if i not in bound_args: tmp = _subst(tmp, pn, ('path', ['\x00%d' % i], [[]]))
+                for i, a in enumerate(e[2]):
+                    if i not in bound_args: tmp = _subst(tmp, '\x00%d' % i, ('paren', a))
+                if closure_args: tmp = _beta(tmp)
+                if bound_args:
+                    lets = [('let', pnames[i], None, e[2][i]) for i in bound_args]
+                    tb = strip(tmp) if isinstance(tmp, tuple) and tmp and tmp[0] in ('paren', 'unsafe') else tmp
+                    if isinstance(tb, tuple) and tb and tb[0] == 'block': tmp = ('block', lets + list(tb[1]), tb[2])
+                    else: tmp = ('block', lets, tb)
                 return inline_helpers(tmp, helpers, caller_types, depth + 1)
     return e
 
 def canon(body_toks, params=(), self_heads=('Self',), helpers=None, caller_types=None):
     """canonical form of a function body given as tokens"""
     e = parse_block_tokens(list(body_toks))
+    return repr(_alpha(normalise(e, self_heads, helpers, caller_types), params))
+
+def normalise(e, self_heads=('Self',), helpers=None, caller_types=None):
+    """the canonical AST of a function body (before renaming)"""
     if helpers: e = inline_helpers(e, helpers, caller_types)
     e = _strip_all(e)
+    if isinstance(e, tuple) and e and e[0] != 'block': e = ('block', [], e)
+    e = _early_returns(e)
     e = _rewrite(e, set(self_heads))
     e = _inline_lets(e)
     e = _strip_all(e)
-    e = _alpha(e, params)
-    return repr(e)
+    e = _rewrite(e, set(self_heads))
+    e = _strip_all(e)
+    return e
